@@ -142,11 +142,17 @@ static void case_random(vh_rng* r, long index) {
       int64_t num = vh_range(r, -100000, 100000);
       rand_text(r, arg, 6, 1);
       char tail[900];
-      snprintf(tail, sizeof tail, "<%" PRId64 "|%s>", num, arg);
-      snprintf(opd, sizeof opd, "print_to(pos=%zu,\"<%%i|%%s>\",%" PRId64 ",\"%s\")", p, num, arg);
+      /* several shapes: conversions next to literals, literal percent signs before / between / after them */
+      static const char* CFMT[] = { "<%" PRId64 "|%s>", "%s%%%" PRId64, "%" PRId64 "%% of %s done", "%%%s%%%%%" PRId64 "%%", "%8" PRId64 ":%-6s;" };
+      static const char* LFMT[] = { "<%i|%s>",          "%s%%%i",          "%i%% of %s done",          "%%%s%%%%%i%%",          "%8i:%-6s;" };
+      int shape = (int)vh_below(r, 5);
+      if (shape == 1 || shape == 3) { snprintf(tail, sizeof tail, CFMT[shape], arg, num); } else { snprintf(tail, sizeof tail, CFMT[shape], num, arg); }
+      snprintf(opd, sizeof opd, "print_to(pos=%zu, shape %d, %" PRId64 ",\"%s\")", p, shape, num, arg);
       vh_op("%s", opd);
       int ret = -1;
-      VH_CATCH(ret = print_to(s, (int)p, "<%i|%s>", $I(num), $S(arg)), exc);
+      if (shape == 1 || shape == 3) { VH_CATCH(ret = print_to(s, (int)p, LFMT[shape], $S(arg), $I(num)), exc); }
+      else { VH_CATCH(ret = print_to(s, (int)p, LFMT[shape], $I(num), $S(arg)), exc); }
+      if (shape >= 1 && shape <= 3) { vh_count("formatted_writes_with_a_literal_percent"); }
       if (exc) { vh_violation("C16:op:print_to-raised", "%s raised %s", opd, vh_exc_name(exc)); continue; }
       ref_[p] = 0; strcat(ref_, tail);
       vh_eval();
